@@ -239,8 +239,14 @@ def judge(hdr, ops, tree, config, rejections, stats):
                     if l[2] not in ('enter', 'reenter'):
                         continue
                     f = l[1]
-                    while tree[f].parent is not None and tree[f].parent in touched:
-                        f = tree[f].parent
+                    while True:
+                        # nearest ancestor that has handlers (an anonymous region head delivers no callback)
+                        q = tree[f].parent
+                        while q is not None and not tree[q].headed:
+                            q = tree[q].parent
+                        if q is None or q not in touched:
+                            break
+                        f = q
                     stats.inc('c04_enters_explained')
                     if not any(related(tree, f, t[2]) for t in final):
                         reject('unexplained-enter', 'state %d got `%s` (entered sub-tree rooted at %d) but no approved transition %s addresses that sub-tree or a region above it'
